@@ -209,6 +209,11 @@ func vrPacket(r *vRouter, c vrClass) (*Packet, []byte) {
 	if nh := verif.Param("nh"); nh >= 0 {
 		raw[4] = byte(nh)
 	}
+	if vrParamOr("ext", 0) == 1 {
+		// one extension header of 8 bytes (ExtLen = 1) followed by UDP; its kind is the class's nh
+		raw[c.hdrLen] = 17
+		raw[c.hdrLen+1] = 1
+	}
 	if c.pathType != 2 {
 		m := c.metaOff
 		raw[m+1] = raw[m+1]&0xFC | byte(c.seg[0]>>4)
